@@ -11,11 +11,11 @@ open Dmr Dmr.Gen.Hytera
 
 /-- the opcode octets of a known opcode are read back as that opcode -/
 theorem rcp_opcode_known {v : Nat} (hv : v ∈ rcpValues) :
-    enumFold rcpValues rcpMissing (ofLe [v % 256, v / 256 % 256]) = v := by
+    enumFold rcpValues rcpMissing (v % 65536) = v := by
   have hlt : v < 65536 := by
     revert v
     decide
-  rw [ofLe2', Nat.mod_eq_of_lt hlt]
+  rw [Nat.mod_eq_of_lt hlt]
   exact enumFold_mem hv
 
 theorem rcp_first (rel : Bool) : reliableAndService (svcRCP ||| (if rel then 0x80 else 0)) = .ok (rel, some svcRCP) :=
@@ -46,15 +46,140 @@ macro "rcp_fixed" : tactic => `(tactic|
     rcpStatusChangeNotificationReply, rcpRadioStatusReport, rcpBroadcastMessageConfigurationRequest,
     rcpBroadcastMessageConfigurationReply, svcRCP, throw, throwThe, MonadExceptOf.throw])
 
-theorem rcp_parse_callRequest (rel : Bool) (ct t x y ck : Nat) (h1 : ct ∈ rcpCallTypeValues) (h2 : t < 4294967296) :
+theorem mem16 : (∀ v ∈ rptModeValues, v < 65536) ∧ (∀ v ∈ rptStatusValues, v < 65536)
+    ∧ (∀ v ∈ rptServiceValues, v < 65536) ∧ (∀ v ∈ rcpCallTypeValues, v < 65536) := by decide
+
+theorem rcp_parse_callRequest (rel : Bool) (ct t : Nat) (x y ck : Nat) (h1 : ct ∈ rcpCallTypeValues) (h2 : t < 4294967296) :
     Rcp.fromBytes ((svcRCP ||| (if rel then 0x80 else 0)) :: (rcpCallRequest % 256) :: (rcpCallRequest / 256 % 256)
       :: x :: y :: (([ct] ++ le4 t) ++ [ck, 3])) = .ok ⟨rel, .callRequest ct t⟩ := by
   have e := rcp_opcode_known (v := rcpCallRequest) (by decide)
-  have m := Nat.mod_eq_of_lt h2
-  have c := enumOf_mem h1
   have r := rcp_first rel
   simp only [svcRCP] at r
-  simp [Rcp.fromBytes, reliableAndServiceB, sl, idx, r, e, le4, ofLe4', m, c, bind, Except.bind, pure, Except.pure, idOf,
-    show ¬ rcpCallRequest = rcpUnknownService by decide, svcRCP]
+  have m := Nat.mod_eq_of_lt h2
+  have c := enumOf_mem h1
+  simp [Rcp.fromBytes, reliableAndServiceB, sl, idx, r, e, le2, le4, ofLe2', ofLe4', bind, Except.bind, pure, Except.pure,
+    idOf, svcRCP, show ¬ rcpCallRequest = rcpUnknownService by decide, m, c]
+
+theorem rcp_parse_callReply (rel : Bool) (r : Nat) (x y ck : Nat) (h1 : r ∈ rcpResultValues) :
+    Rcp.fromBytes ((svcRCP ||| (if rel then 0x80 else 0)) :: (rcpCallReply % 256) :: (rcpCallReply / 256 % 256)
+      :: x :: y :: (([r]) ++ [ck, 3])) = .ok ⟨rel, .callReply r⟩ := by
+  have e := rcp_opcode_known (v := rcpCallReply) (by decide)
+  have r := rcp_first rel
+  simp only [svcRCP] at r
+  have c := enumOf_mem h1
+  simp [Rcp.fromBytes, reliableAndServiceB, sl, idx, r, e, le2, le4, ofLe2', ofLe4', bind, Except.bind, pure, Except.pure,
+    idOf, svcRCP, show ¬ rcpCallReply = rcpUnknownService by decide, show ¬ rcpCallReply = rcpCallRequest by decide, c]
+
+theorem rcp_parse_rptBroadcastTx (rel : Bool) (m st sv ct t s : Nat) (x y ck : Nat) (h1 : m ∈ rptModeValues) (h2 : st ∈ rptStatusValues) (h3 : sv ∈ rptServiceValues) (h4 : ct ∈ rcpCallTypeValues) (h5 : t < 4294967296) (h6 : s < 4294967296) :
+    Rcp.fromBytes ((svcRCP ||| (if rel then 0x80 else 0)) :: (rcpRepeaterBroadcastTransmitStatus % 256) :: (rcpRepeaterBroadcastTransmitStatus / 256 % 256)
+      :: x :: y :: ((le2 m ++ le2 st ++ le2 sv ++ le2 ct ++ le4 t ++ le4 s) ++ [ck, 3])) = .ok ⟨rel, .rptBroadcastTx m st sv ct t s⟩ := by
+  have e := rcp_opcode_known (v := rcpRepeaterBroadcastTransmitStatus) (by decide)
+  have r := rcp_first rel
+  simp only [svcRCP] at r
+  have m1 := Nat.mod_eq_of_lt (mem16.1 m h1)
+  have m2 := Nat.mod_eq_of_lt (mem16.2.1 st h2)
+  have m3 := Nat.mod_eq_of_lt (mem16.2.2.1 sv h3)
+  have m4 := Nat.mod_eq_of_lt (mem16.2.2.2 ct h4)
+  have m5 := Nat.mod_eq_of_lt h5
+  have m6 := Nat.mod_eq_of_lt h6
+  have c1 := enumOf_mem h1
+  have c2 := enumOf_mem h2
+  have c3 := enumOf_mem h3
+  have c4 := enumOf_mem h4
+  simp [Rcp.fromBytes, reliableAndServiceB, sl, idx, r, e, le2, le4, ofLe2', ofLe4', bind, Except.bind, pure, Except.pure,
+    idOf, svcRCP, show ¬ rcpRepeaterBroadcastTransmitStatus = rcpUnknownService by decide, show ¬ rcpRepeaterBroadcastTransmitStatus = rcpCallRequest by decide, show ¬ rcpRepeaterBroadcastTransmitStatus = rcpCallReply by decide, m1, m2, m3, m4, m5, m6, c1, c2, c3, c4]
+
+theorem rcp_parse_bcastMsgCfgReq (rel : Bool) (bt : Nat) (x y ck : Nat)  :
+    Rcp.fromBytes ((svcRCP ||| (if rel then 0x80 else 0)) :: (rcpBroadcastMessageConfigurationRequest % 256) :: (rcpBroadcastMessageConfigurationRequest / 256 % 256)
+      :: x :: y :: (([bt, 0, 0, 0, 0, 0, 0, 0]) ++ [ck, 3])) = .ok ⟨rel, .bcastMsgCfgReq bt⟩ := by
+  have e := rcp_opcode_known (v := rcpBroadcastMessageConfigurationRequest) (by decide)
+  have r := rcp_first rel
+  simp only [svcRCP] at r
+  simp [Rcp.fromBytes, reliableAndServiceB, sl, idx, r, e, le2, le4, ofLe2', ofLe4', bind, Except.bind, pure, Except.pure,
+    idOf, svcRCP, show ¬ rcpBroadcastMessageConfigurationRequest = rcpUnknownService by decide, show ¬ rcpBroadcastMessageConfigurationRequest = rcpCallRequest by decide, show ¬ rcpBroadcastMessageConfigurationRequest = rcpCallReply by decide, show ¬ rcpBroadcastMessageConfigurationRequest = rcpRepeaterBroadcastTransmitStatus by decide]
+
+theorem rcp_parse_bcastMsgCfgReply (rel : Bool) (r : Nat) (x y ck : Nat) (h1 : r ∈ rcpResultValues) :
+    Rcp.fromBytes ((svcRCP ||| (if rel then 0x80 else 0)) :: (rcpBroadcastMessageConfigurationReply % 256) :: (rcpBroadcastMessageConfigurationReply / 256 % 256)
+      :: x :: y :: (([r]) ++ [ck, 3])) = .ok ⟨rel, .bcastMsgCfgReply r⟩ := by
+  have e := rcp_opcode_known (v := rcpBroadcastMessageConfigurationReply) (by decide)
+  have r := rcp_first rel
+  simp only [svcRCP] at r
+  have c := enumOf_mem h1
+  simp [Rcp.fromBytes, reliableAndServiceB, sl, idx, r, e, le2, le4, ofLe2', ofLe4', bind, Except.bind, pure, Except.pure,
+    idOf, svcRCP, show ¬ rcpBroadcastMessageConfigurationReply = rcpUnknownService by decide, show ¬ rcpBroadcastMessageConfigurationReply = rcpCallRequest by decide, show ¬ rcpBroadcastMessageConfigurationReply = rcpCallReply by decide, show ¬ rcpBroadcastMessageConfigurationReply = rcpRepeaterBroadcastTransmitStatus by decide, show ¬ rcpBroadcastMessageConfigurationReply = rcpBroadcastMessageConfigurationRequest by decide, c]
+
+theorem rcp_parse_idIpQueryReq (rel : Bool) (t : Nat) (x y ck : Nat) (h1 : t ∈ rcpIdTargetValues) :
+    Rcp.fromBytes ((svcRCP ||| (if rel then 0x80 else 0)) :: (rcpRadioIDAndRadioIPQueryRequest % 256) :: (rcpRadioIDAndRadioIPQueryRequest / 256 % 256)
+      :: x :: y :: (([t]) ++ [ck, 3])) = .ok ⟨rel, .idIpQueryReq t⟩ := by
+  have e := rcp_opcode_known (v := rcpRadioIDAndRadioIPQueryRequest) (by decide)
+  have r := rcp_first rel
+  simp only [svcRCP] at r
+  have c := enumOf_mem h1
+  simp [Rcp.fromBytes, reliableAndServiceB, sl, idx, r, e, le2, le4, ofLe2', ofLe4', bind, Except.bind, pure, Except.pure,
+    idOf, svcRCP, show ¬ rcpRadioIDAndRadioIPQueryRequest = rcpUnknownService by decide, show ¬ rcpRadioIDAndRadioIPQueryRequest = rcpCallRequest by decide, show ¬ rcpRadioIDAndRadioIPQueryRequest = rcpCallReply by decide, show ¬ rcpRadioIDAndRadioIPQueryRequest = rcpRepeaterBroadcastTransmitStatus by decide, show ¬ rcpRadioIDAndRadioIPQueryRequest = rcpBroadcastMessageConfigurationRequest by decide, show ¬ rcpRadioIDAndRadioIPQueryRequest = rcpBroadcastMessageConfigurationReply by decide, c]
+
+theorem rcp_parse_idIpQueryReply (rel : Bool) (r t a b c d : Nat) (x y ck : Nat) (h1 : r ∈ rcpResultValues) (h2 : t ∈ rcpIdTargetValues) :
+    Rcp.fromBytes ((svcRCP ||| (if rel then 0x80 else 0)) :: (rcpRadioIDAndRadioIPQueryReply % 256) :: (rcpRadioIDAndRadioIPQueryReply / 256 % 256)
+      :: x :: y :: (([r, t] ++ [a, b, c, d]) ++ [ck, 3])) = .ok ⟨rel, .idIpQueryReply r t [a, b, c, d]⟩ := by
+  have e := rcp_opcode_known (v := rcpRadioIDAndRadioIPQueryReply) (by decide)
+  have r := rcp_first rel
+  simp only [svcRCP] at r
+  have c1 := enumOf_mem h1
+  have c2 := enumOf_mem h2
+  simp [Rcp.fromBytes, reliableAndServiceB, sl, idx, r, e, le2, le4, ofLe2', ofLe4', bind, Except.bind, pure, Except.pure,
+    idOf, svcRCP, show ¬ rcpRadioIDAndRadioIPQueryReply = rcpUnknownService by decide, show ¬ rcpRadioIDAndRadioIPQueryReply = rcpCallRequest by decide, show ¬ rcpRadioIDAndRadioIPQueryReply = rcpCallReply by decide, show ¬ rcpRadioIDAndRadioIPQueryReply = rcpRepeaterBroadcastTransmitStatus by decide, show ¬ rcpRadioIDAndRadioIPQueryReply = rcpBroadcastMessageConfigurationRequest by decide, show ¬ rcpRadioIDAndRadioIPQueryReply = rcpBroadcastMessageConfigurationReply by decide, show ¬ rcpRadioIDAndRadioIPQueryReply = rcpRadioIDAndRadioIPQueryRequest by decide, c1, c2]
+
+theorem rcp_parse_bcastStatusCfgReply (rel : Bool) (r : Nat) (x y ck : Nat) (h1 : r ∈ rcpResultValues) :
+    Rcp.fromBytes ((svcRCP ||| (if rel then 0x80 else 0)) :: (rcpBroadcastStatusConfigurationReply % 256) :: (rcpBroadcastStatusConfigurationReply / 256 % 256)
+      :: x :: y :: (([r]) ++ [ck, 3])) = .ok ⟨rel, .bcastStatusCfgReply r⟩ := by
+  have e := rcp_opcode_known (v := rcpBroadcastStatusConfigurationReply) (by decide)
+  have r := rcp_first rel
+  simp only [svcRCP] at r
+  have c := enumOf_mem h1
+  simp [Rcp.fromBytes, reliableAndServiceB, sl, idx, r, e, le2, le4, ofLe2', ofLe4', bind, Except.bind, pure, Except.pure,
+    idOf, svcRCP, show ¬ rcpBroadcastStatusConfigurationReply = rcpUnknownService by decide, show ¬ rcpBroadcastStatusConfigurationReply = rcpCallRequest by decide, show ¬ rcpBroadcastStatusConfigurationReply = rcpCallReply by decide, show ¬ rcpBroadcastStatusConfigurationReply = rcpRepeaterBroadcastTransmitStatus by decide, show ¬ rcpBroadcastStatusConfigurationReply = rcpBroadcastMessageConfigurationRequest by decide, show ¬ rcpBroadcastStatusConfigurationReply = rcpBroadcastMessageConfigurationReply by decide, show ¬ rcpBroadcastStatusConfigurationReply = rcpRadioIDAndRadioIPQueryRequest by decide, show ¬ rcpBroadcastStatusConfigurationReply = rcpRadioIDAndRadioIPQueryReply by decide, show ¬ rcpBroadcastStatusConfigurationReply = rcpBroadcastStatusConfigurationRequest by decide, c]
+
+theorem rcp_parse_talkerAliasReply (rel : Bool) (r ct s t : Nat) (x y ck : Nat) (h1 : r ∈ rcpResultValues) (h2 : ct ∈ rcpCallTypeValues) (h3 : s < 4294967296) (h4 : t < 4294967296) :
+    Rcp.fromBytes ((svcRCP ||| (if rel then 0x80 else 0)) :: (rcpSendTalkerAliasReply % 256) :: (rcpSendTalkerAliasReply / 256 % 256)
+      :: x :: y :: (([r, ct] ++ le4 s ++ le4 t) ++ [ck, 3])) = .ok ⟨rel, .talkerAliasReply r ct s t⟩ := by
+  have e := rcp_opcode_known (v := rcpSendTalkerAliasReply) (by decide)
+  have r := rcp_first rel
+  simp only [svcRCP] at r
+  have c1 := enumOf_mem h1
+  have c2 := enumOf_mem h2
+  have m3 := Nat.mod_eq_of_lt h3
+  have m4 := Nat.mod_eq_of_lt h4
+  simp [Rcp.fromBytes, reliableAndServiceB, sl, idx, r, e, le2, le4, ofLe2', ofLe4', bind, Except.bind, pure, Except.pure,
+    idOf, svcRCP, show ¬ rcpSendTalkerAliasReply = rcpUnknownService by decide, show ¬ rcpSendTalkerAliasReply = rcpCallRequest by decide, show ¬ rcpSendTalkerAliasReply = rcpCallReply by decide, show ¬ rcpSendTalkerAliasReply = rcpRepeaterBroadcastTransmitStatus by decide, show ¬ rcpSendTalkerAliasReply = rcpBroadcastMessageConfigurationRequest by decide, show ¬ rcpSendTalkerAliasReply = rcpBroadcastMessageConfigurationReply by decide, show ¬ rcpSendTalkerAliasReply = rcpRadioIDAndRadioIPQueryRequest by decide, show ¬ rcpSendTalkerAliasReply = rcpRadioIDAndRadioIPQueryReply by decide, show ¬ rcpSendTalkerAliasReply = rcpBroadcastStatusConfigurationRequest by decide, show ¬ rcpSendTalkerAliasReply = rcpBroadcastStatusConfigurationReply by decide, show ¬ rcpSendTalkerAliasReply = rcpSendTalkerAliasRequest by decide, c1, c2, m3, m4]
+
+theorem rcp_parse_zoneChanReq (rel : Bool) (a b c d e : Nat) (x y ck : Nat)  :
+    Rcp.fromBytes ((svcRCP ||| (if rel then 0x80 else 0)) :: (rcpZoneAndChannelOperationRequest % 256) :: (rcpZoneAndChannelOperationRequest / 256 % 256)
+      :: x :: y :: (([a, b, c, d, e]) ++ [ck, 3])) = .ok ⟨rel, .zoneChanReq [a, b, c, d, e]⟩ := by
+  have e := rcp_opcode_known (v := rcpZoneAndChannelOperationRequest) (by decide)
+  have r := rcp_first rel
+  simp only [svcRCP] at r
+  simp [Rcp.fromBytes, reliableAndServiceB, sl, idx, r, e, le2, le4, ofLe2', ofLe4', bind, Except.bind, pure, Except.pure,
+    idOf, svcRCP, show ¬ rcpZoneAndChannelOperationRequest = rcpUnknownService by decide, show ¬ rcpZoneAndChannelOperationRequest = rcpCallRequest by decide, show ¬ rcpZoneAndChannelOperationRequest = rcpCallReply by decide, show ¬ rcpZoneAndChannelOperationRequest = rcpRepeaterBroadcastTransmitStatus by decide, show ¬ rcpZoneAndChannelOperationRequest = rcpBroadcastMessageConfigurationRequest by decide, show ¬ rcpZoneAndChannelOperationRequest = rcpBroadcastMessageConfigurationReply by decide, show ¬ rcpZoneAndChannelOperationRequest = rcpRadioIDAndRadioIPQueryRequest by decide, show ¬ rcpZoneAndChannelOperationRequest = rcpRadioIDAndRadioIPQueryReply by decide, show ¬ rcpZoneAndChannelOperationRequest = rcpBroadcastStatusConfigurationRequest by decide, show ¬ rcpZoneAndChannelOperationRequest = rcpBroadcastStatusConfigurationReply by decide, show ¬ rcpZoneAndChannelOperationRequest = rcpSendTalkerAliasRequest by decide, show ¬ rcpZoneAndChannelOperationRequest = rcpSendTalkerAliasReply by decide]
+
+theorem rcp_parse_statusNotifyReply (rel : Bool) (r : Nat) (x y ck : Nat) (h1 : r ∈ rcpResultValues) :
+    Rcp.fromBytes ((svcRCP ||| (if rel then 0x80 else 0)) :: (rcpStatusChangeNotificationReply % 256) :: (rcpStatusChangeNotificationReply / 256 % 256)
+      :: x :: y :: (([r]) ++ [ck, 3])) = .ok ⟨rel, .statusNotifyReply r⟩ := by
+  have e := rcp_opcode_known (v := rcpStatusChangeNotificationReply) (by decide)
+  have r := rcp_first rel
+  simp only [svcRCP] at r
+  have c := enumOf_mem h1
+  simp [Rcp.fromBytes, reliableAndServiceB, sl, idx, r, e, le2, le4, ofLe2', ofLe4', bind, Except.bind, pure, Except.pure,
+    idOf, svcRCP, show ¬ rcpStatusChangeNotificationReply = rcpUnknownService by decide, show ¬ rcpStatusChangeNotificationReply = rcpCallRequest by decide, show ¬ rcpStatusChangeNotificationReply = rcpCallReply by decide, show ¬ rcpStatusChangeNotificationReply = rcpRepeaterBroadcastTransmitStatus by decide, show ¬ rcpStatusChangeNotificationReply = rcpBroadcastMessageConfigurationRequest by decide, show ¬ rcpStatusChangeNotificationReply = rcpBroadcastMessageConfigurationReply by decide, show ¬ rcpStatusChangeNotificationReply = rcpRadioIDAndRadioIPQueryRequest by decide, show ¬ rcpStatusChangeNotificationReply = rcpRadioIDAndRadioIPQueryReply by decide, show ¬ rcpStatusChangeNotificationReply = rcpBroadcastStatusConfigurationRequest by decide, show ¬ rcpStatusChangeNotificationReply = rcpBroadcastStatusConfigurationReply by decide, show ¬ rcpStatusChangeNotificationReply = rcpSendTalkerAliasRequest by decide, show ¬ rcpStatusChangeNotificationReply = rcpSendTalkerAliasReply by decide, show ¬ rcpStatusChangeNotificationReply = rcpZoneAndChannelOperationRequest by decide, show ¬ rcpStatusChangeNotificationReply = rcpZoneAndChannelOperationReply by decide, show ¬ rcpStatusChangeNotificationReply = rcpStatusChangeNotificationRequest by decide, c]
+
+theorem rcp_parse_radioStatusReport (rel : Bool) (t v : Nat) (x y ck : Nat) (h1 : t ∈ scnTargetValues) (h2 : v < 65536) :
+    Rcp.fromBytes ((svcRCP ||| (if rel then 0x80 else 0)) :: (rcpRadioStatusReport % 256) :: (rcpRadioStatusReport / 256 % 256)
+      :: x :: y :: (([t] ++ le2 v) ++ [ck, 3])) = .ok ⟨rel, .radioStatusReport t v⟩ := by
+  have e := rcp_opcode_known (v := rcpRadioStatusReport) (by decide)
+  have r := rcp_first rel
+  simp only [svcRCP] at r
+  have c := enumFold_mem (m := scnTargetMissing) h1
+  have m2 := Nat.mod_eq_of_lt h2
+  simp [Rcp.fromBytes, reliableAndServiceB, sl, idx, r, e, le2, le4, ofLe2', ofLe4', bind, Except.bind, pure, Except.pure,
+    idOf, svcRCP, show ¬ rcpRadioStatusReport = rcpUnknownService by decide, show ¬ rcpRadioStatusReport = rcpCallRequest by decide, show ¬ rcpRadioStatusReport = rcpCallReply by decide, show ¬ rcpRadioStatusReport = rcpRepeaterBroadcastTransmitStatus by decide, show ¬ rcpRadioStatusReport = rcpBroadcastMessageConfigurationRequest by decide, show ¬ rcpRadioStatusReport = rcpBroadcastMessageConfigurationReply by decide, show ¬ rcpRadioStatusReport = rcpRadioIDAndRadioIPQueryRequest by decide, show ¬ rcpRadioStatusReport = rcpRadioIDAndRadioIPQueryReply by decide, show ¬ rcpRadioStatusReport = rcpBroadcastStatusConfigurationRequest by decide, show ¬ rcpRadioStatusReport = rcpBroadcastStatusConfigurationReply by decide, show ¬ rcpRadioStatusReport = rcpSendTalkerAliasRequest by decide, show ¬ rcpRadioStatusReport = rcpSendTalkerAliasReply by decide, show ¬ rcpRadioStatusReport = rcpZoneAndChannelOperationRequest by decide, show ¬ rcpRadioStatusReport = rcpZoneAndChannelOperationReply by decide, show ¬ rcpRadioStatusReport = rcpStatusChangeNotificationRequest by decide, show ¬ rcpRadioStatusReport = rcpStatusChangeNotificationReply by decide, c, m2]
 
 end Dmr.Hytera
